@@ -21,6 +21,8 @@ static std::string addr_text(const struct ares_addr *a)
 std::string sortlist_text(const struct apattern *sl, int n)
 {
   std::string s;
+  // a count without an array is an inconsistent channel: say so instead of dereferencing it
+  if (sl == nullptr && n > 0) return "(no array although the count is " + std::to_string(n) + ")";
   for (int i = 0; i < n; i++) s += (i ? " " : "") + addr_text(&sl[i].addr) + "/" + std::to_string((unsigned)sl[i].mask);
   return s;
 }
